@@ -47,7 +47,7 @@ Proof.
               h Hh Hu Hne t0 s0 pre E w0 p0 W00 P00 Hw Hp sw sp t s rest Eh) as (wk & pk & A1 & A2 & A3 & A4).
   destruct (history_follows_euler c' load' i0' imax' Hi' Hm' W0 TM I0 IM L sW' sT' sI' sM' kT' kI' kM' Hl' JJ DT D J' dt0' HJ' sJ' kJ' sdt' HD Hpos
               h' Hh' Hu' Hne' t0' s0' pre' E' w0' p0' W00 P00 Hw' Hp' sw' sp' t' s' rest' Eh') as (wk' & pk' & B1 & B2 & B3 & B4).
-  unfold A_lin, kap_lin in *. rewrite <- HR, <- HG, <- Hlen in B3, B4.
+  unfold A_lin, kap_lin, A_g, kap_g in *. rewrite <- HR, <- HG, <- Hlen in B3, B4.
   do 6 eexists. repeat split; eassumption.
 Qed.
 
